@@ -576,4 +576,775 @@ theorem expire_cohD (cfg : Cfg) (n : Node) (D : List Nat) (exp : Option Nat) (hc
   | none => exact hc
   | some a => exact (expireAndPurge_cohD cfg n D a exp hc hfs).1
 
+
+/-! ### the commands -/
+
+/-- what a command adds to the dirty set: the fabric of a fabric-scoped write that was answered
+with a store error -/
+def dirtyOp (D : List Nat) (mode : Mode) (op : Op) (st : Status) : List Nat :=
+  match op with
+  | .acl _ _ | .grp _ _ | .label _ _ => if st = .err "NoSpace" then mode.fab :: D else D
+  | _ => D
+
+theorem dirty_keep (D : List Nat) (j : Nat) (e : String) (he : e ≠ "NoSpace") :
+    (if Status.err e = Status.err "NoSpace" then j :: D else D) = D := by
+  simp [he]
+
+theorem sessOp_acl_cohD (cfg : Cfg) (n : Node) (D : List Nat) (sid s v : Nat) (mode : Mode) (hc : CohD n D) :
+    CohD (sessOp cfg n sid mode (.acl s v)).1 (dirtyOp D mode (.acl s v) (sessOp cfg n sid mode (.acl s v)).2) := by
+  simp only [dirtyOp]
+  unfold sessOp
+  by_cases h0 : mode.fab = 0
+  · simp only [h0, if_true]; rw [dirty_keep _ _ _ (by decide)]; exact hc
+  · simp only [h0, if_false]
+    cases hg : getFabric n mode.fab with
+    | none => simp only []; rw [dirty_keep _ _ _ (by decide)]; exact hc
+    | some f =>
+      have hidx := getFabric_idx hg
+      simp only []
+      split
+      · rw [dirty_keep _ _ _ (by decide)]; exact hc
+      · have := cohD_fabric_write n D f { f with acl := f.acl ++ [v] } rfl (by omega) (by rw [hidx]; exact hg) hc
+        have hD : mode.fab :: D = f.idx :: D := by rw [hidx]
+        rw [hD]
+        exact this
+
+theorem sessOp_grp_cohD (cfg : Cfg) (n : Node) (D : List Nat) (sid s v : Nat) (mode : Mode) (hc : CohD n D) :
+    CohD (sessOp cfg n sid mode (.grp s v)).1 (dirtyOp D mode (.grp s v) (sessOp cfg n sid mode (.grp s v)).2) := by
+  simp only [dirtyOp]
+  unfold sessOp
+  by_cases h0 : mode.fab = 0
+  · simp only [h0, if_true]; rw [dirty_keep _ _ _ (by decide)]; exact hc
+  · simp only [h0, if_false]
+    cases hg : getFabric n mode.fab with
+    | none => simp only []; rw [dirty_keep _ _ _ (by decide)]; exact hc
+    | some f =>
+      have hidx := getFabric_idx hg
+      simp only []
+      split
+      · rw [dirty_keep _ _ _ (by decide)]; exact hc
+      · have := cohD_fabric_write n D f (if f.grp.contains v then f else { f with grp := f.grp ++ [v] })
+          (by split <;> rfl) (by omega) (by rw [hidx]; exact hg) hc
+        have hD : mode.fab :: D = f.idx :: D := by rw [hidx]
+        rw [hD]
+        exact this
+
+theorem sessOp_label_cohD (cfg : Cfg) (n : Node) (D : List Nat) (sid s v : Nat) (mode : Mode) (hc : CohD n D) :
+    CohD (sessOp cfg n sid mode (.label s v)).1 (dirtyOp D mode (.label s v) (sessOp cfg n sid mode (.label s v)).2) := by
+  simp only [dirtyOp]
+  unfold sessOp
+  by_cases h0 : mode.fab = 0
+  · simp only [h0, if_true]; rw [dirty_keep _ _ _ (by decide)]; exact hc
+  · simp only [h0, if_false]
+    split
+    · rw [dirty_keep _ _ _ (by decide)]; exact hc
+    · cases hg : getFabric n mode.fab with
+      | none => simp only []; rw [dirty_keep _ _ _ (by decide)]; exact hc
+      | some f =>
+        have hidx := getFabric_idx hg
+        have := cohD_fabric_write n D f { f with label := v } rfl (by omega) (by rw [hidx]; exact hg) hc
+        have hD : mode.fab :: D = f.idx :: D := by rw [hidx]
+        rw [hD]
+        exact this
+
+theorem sessOp_openW_cohD (cfg : Cfg) (n : Node) (D : List Nat) (sid s : Nat) (mode : Mode) (hc : CohD n D) :
+    CohD (sessOp cfg n sid mode (.openW s)).1 D := by
+  unfold sessOp
+  simp only []
+  split
+  · exact windowTimeout_cohD n D hc
+  · exact cohD_congr triv triv triv triv triv triv (windowTimeout_cohD n D hc)
+
+theorem sessOp_bcw_cohD (cfg : Cfg) (n : Node) (D : List Nat) (sid s v : Nat) (mode : Mode) (hc : CohD n D) :
+    CohD (sessOp cfg n sid mode (.bcw s v)).1 D := by
+  unfold sessOp
+  exact cohD_congr triv triv triv triv triv triv hc
+
+theorem sessOp_arm_cohD (cfg : Cfg) (n : Node) (D : List Nat) (sid s secs : Nat) (mode : Mode) (hc : CohD n D) :
+    CohD (sessOp cfg n sid mode (.arm s secs)).1 D := by
+  unfold sessOp
+  by_cases h0 : secs = 0
+  · simp only [h0, if_true]
+    have := expire_cohD cfg n D (some sid) hc
+    rcases hr : expire cfg n (some sid) with ⟨n1, e⟩
+    rw [hr] at this
+    cases e <;> exact this
+  · simp only [h0, if_false]
+    cases hfs : n.fs with
+    | none =>
+      simp only []
+      split
+      · exact hc
+      · have := cohD_setfs (n := n) { fab := mode.fab, flags := {}, timeout := secs, armedAt := n.now } secs n.staged hc
+          (Or.inl ⟨hfs, rfl⟩)
+        exact cohD_congr triv triv triv triv triv triv this
+    | some a =>
+      simp only []
+      split
+      · exact hc
+      · have := cohD_setfs (n := n) { a with armedAt := n.now, timeout := secs } secs n.staged hc
+          (Or.inr ⟨a, hfs, rfl, id, id, id⟩)
+        exact cohD_congr triv triv triv triv triv triv this
+
+theorem sessOp_csr_cohD (cfg : Cfg) (n : Node) (D : List Nat) (sid s : Nat) (upd : Bool) (mode : Mode) (hc : CohD n D) :
+    CohD (sessOp cfg n sid mode (.csr s upd)).1 D := by
+  unfold sessOp
+  cases hca : checkArmed n mode with
+  | some e => exact hc
+  | none =>
+    simp only []
+    split
+    · exact hc
+    · cases hfs : n.fs with
+      | none => exact hc
+      | some a =>
+        simp only []
+        split
+        · exact hc
+        · have := cohD_setfs (n := n)
+            { a with flags := (if upd = true then { a.flags with updCsr := true } else { a.flags with addCsr := true }) }
+            n.bc n.staged hc (Or.inr ⟨a, hfs, rfl, id, by split <;> exact id, by split <;> exact id⟩)
+          exact cohD_congr triv triv triv triv triv triv this
+
+theorem sessOp_root_cohD (cfg : Cfg) (n : Node) (D : List Nat) (sid s ca : Nat) (mode : Mode) (hc : CohD n D) :
+    CohD (sessOp cfg n sid mode (.root s ca)).1 D := by
+  unfold sessOp
+  cases hca : checkArmed n mode with
+  | some e => exact hc
+  | none =>
+    simp only []
+    cases hfs : n.fs with
+    | none => exact hc
+    | some a =>
+      simp only []
+      split
+      · exact hc
+      · have := cohD_setfs (n := n) { a with flags := { a.flags with root := true } } n.bc ca hc
+          (Or.inr ⟨a, hfs, rfl, id, id, id⟩)
+        exact cohD_congr triv triv triv triv triv triv this
+
+theorem sessOp_net_cohD (cfg : Cfg) (n : Node) (D : List Nat) (sid s v : Nat) (mode : Mode) (hc : CohD n D) :
+    CohD (sessOp cfg n sid mode (.net s v)).1 D := by
+  unfold sessOp
+  cases hca : checkArmed n mode with
+  | some e => exact hc
+  | none =>
+    have ⟨a, hfs, _⟩ := checkArmed_none hca
+    have hne : n.fs ≠ none := by rw [hfs]; simp
+    simp only []
+    split
+    · exact cohD_nets_armed n.nets false hc hne
+    · split
+      · exact hc
+      · exact cohD_nets_armed _ false hc hne
+
+theorem sessOp_rmnet_cohD (cfg : Cfg) (n : Node) (D : List Nat) (sid s v : Nat) (mode : Mode) (hc : CohD n D) :
+    CohD (sessOp cfg n sid mode (.rmnet s v)).1 D := by
+  unfold sessOp
+  cases hca : checkArmed n mode with
+  | some e => exact hc
+  | none =>
+    have ⟨a, hfs, _⟩ := checkArmed_none hca
+    have hne : n.fs ≠ none := by rw [hfs]; simp
+    simp only []
+    split
+    · exact cohD_nets_armed _ false hc hne
+    · exact hc
+
+theorem sessOp_revoke_cohD (cfg : Cfg) (n : Node) (D : List Nat) (sid s : Nat) (mode : Mode) (hc : CohD n D) :
+    CohD (sessOp cfg n sid mode (.revoke s)).1 D := by
+  unfold sessOp
+  simp only []
+  have := expire_cohD cfg n D (some sid) hc
+  rcases hr : expire cfg n (some sid) with ⟨n1, e⟩
+  rw [hr] at this
+  cases e with
+  | some e => exact this
+  | none => exact cohD_congr triv triv triv triv triv triv this
+
+theorem sessOp_rmfab_cohD (cfg : Cfg) (n : Node) (D : List Nat) (sid s idx : Nat) (mode : Mode) (hc : CohD n D) :
+    CohD (sessOp cfg n sid mode (.rmfab s idx)).1 D := by
+  unfold sessOp
+  by_cases h0 : idx = 0
+  · simp only [h0, if_true]; exact hc
+  · simp only [h0, if_false]
+    by_cases hh : hasFabric n idx = true
+    · simp only [hh, if_true]
+      have ⟨p1, _, p3, p4, p5, _, _, p8, p9, _⟩ := purgeResum_spec n idx
+      rcases hp : purgeResum n idx with ⟨n2, b⟩
+      rw [hp] at p1 p3 p4 p5 p8 p9
+      simp only at p1 p3 p4 p5 p8 p9
+      have hc2 : CohD n2 D := cohD_congr p1 p3 p4 p5 p8 p9 hc
+      cases b with
+      | false => exact hc2
+      | true =>
+        simp only []
+        have ⟨hfr, hnets, _, hst⟩ := removeFabricKey_spec n2 idx
+        rcases hr : removeFabricKey n2 idx with ⟨n3, b3⟩
+        rw [hr] at hfr hnets hst
+        simp only at hfr hnets hst
+        rcases hst with ⟨hb, hkvF, _⟩ | ⟨hb, hkv, _⟩
+        · subst hb
+          simp only [ok]
+          have hex : exemptIdx n3 = exemptIdx n2 := by simp [exemptIdx, hfr.fs]
+          have hget : ∀ i, getFabric n3 i = getFabric n2 i := by intro i; simp only [getFabric, hfr.fabrics]
+          refine ⟨fun i hi he hd => ?_, fun hn => ?_, fun a ha h0' h1 h2 h3 => ?_⟩
+          · show List.find? (fun f => decide (f.idx = i)) (List.filter (fun f => decide (f.idx ≠ idx)) n3.fabrics) = kvF n3.kv i
+            rw [find_filter_ne, hkvF]
+            by_cases hii : i = idx
+            · simp [hii]
+            · simp only [hii, if_false]
+              have := hc2.1 i hi (by rw [← hex]; exact he) hd
+              rw [← hget] at this
+              exact this
+          · have := hc2.2.1 (by rw [← hfr.fs]; exact hn)
+            show (n3.nets, n3.managed) = kvNets n3.kv
+            rw [hfr.nets, hfr.managed, this]
+            simp [kvNets, hnets]
+          · show _ ∨ List.find? (fun f => decide (f.idx = a.fab)) (List.filter (fun f => decide (f.idx ≠ idx)) n3.fabrics) = kvF n3.kv a.fab
+            rw [find_filter_ne, hkvF]
+            by_cases hii : a.fab = idx
+            · right; simp [hii]
+            · simp only [hii, if_false]
+              rcases hc2.2.2 a (by rw [← hfr.fs]; exact ha) h0' h1 h2 h3 with hm | he
+              · exact Or.inl hm
+              · right; rw [← hget] at he; exact he
+        · subst hb
+          exact cohD_frame hfr (by rw [hkv]) (by rw [hkv]) hc2
+    · simp only [hh, Bool.false_eq_true, if_false]; exact hc
+
+theorem sessOp_updnoc_cohD (cfg : Cfg) (n : Node) (D : List Nat) (sid s node ser : Nat) (mode : Mode) (hc : CohD n D) :
+    CohD (sessOp cfg n sid mode (.updnoc s node ser)).1 D := by
+  unfold sessOp
+  cases hca : checkArmed n mode with
+  | some e => exact hc
+  | none =>
+    have ⟨a0, hfs0, hab0⟩ := checkArmed_none hca
+    simp only []
+    split
+    · exact hc
+    · simp only [hfs0]
+      split
+      · exact hc
+      · cases hg : getFabric n mode.fab with
+        | none => exact hc
+        | some f =>
+          have hidx := getFabric_idx hg
+          simp only [ok]
+          refine ⟨fun i hi he hd => ?_, fun hn => by simp at hn, fun a ha _ _ h2 _ => ?_⟩
+          · have hif : i ≠ f.idx := by simpa [exemptIdx] using he
+            show getFabric (setFabric n { f with node := node, ser := ser }) i = kvF n.kv i
+            rw [getFabric_setFabric]
+            simp only [hif, if_false]
+            exact hc.1 i hi (by simp [exemptIdx, hfs0, hab0, ← hidx]; exact hif) hd
+          · have : a = { a0 with fab := f.idx, flags := { a0.flags with updNoc := true } } := by simpa using ha.symm
+            subst this
+            simp at h2
+
+theorem sessOp_complete_cohD (cfg : Cfg) (n : Node) (D : List Nat) (sid s : Nat) (mode : Mode) (hc : CohD n D) :
+    CohD (sessOp cfg n sid mode (.complete s)).1 D ∧
+    ((sessOp cfg n sid mode (.complete s)).2 = .ok →
+      (sessOp cfg n sid mode (.complete s)).1.fs = none ∧
+      getFabric (sessOp cfg n sid mode (.complete s)).1 mode.fab = kvF (sessOp cfg n sid mode (.complete s)).1.kv mode.fab ∧
+      (getFabric (sessOp cfg n sid mode (.complete s)).1 mode.fab).isSome = true) := by
+  unfold sessOp
+  cases hca : checkArmed n mode with
+  | some e => exact ⟨hc, by simp⟩
+  | none =>
+    have ⟨a0, hfs0, hab0⟩ := checkArmed_none hca
+    simp only []
+    split
+    · exact ⟨hc, by simp⟩
+    · cases hg : getFabric n mode.fab with
+      | none => exact ⟨hc, by simp⟩
+      | some f =>
+        have hidx := getFabric_idx hg
+        simp only []
+        have ⟨hfr1, hst1⟩ := storeFabric_spec n f
+        rcases hr1 : storeFabric n f with ⟨n1, b1⟩
+        rw [hr1] at hfr1 hst1
+        simp only at hfr1 hst1
+        rcases hst1 with ⟨hb1, hkv1, _⟩ | ⟨hb1, hkv1, _⟩
+        · subst hb1
+          simp only []
+          -- the fabric is stored: still armed for it
+          have hget1 : ∀ i, getFabric n1 i = getFabric n i := by intro i; simp only [getFabric, hfr1.fabrics]
+          have hkvF1 : ∀ i, kvF n1.kv i = if i = f.idx then some f else kvF n.kv i := by
+            intro i; rw [hkv1, kvF_putFabric]
+          have hc1 : CohD n1 D := by
+            refine ⟨fun i hi he hd => ?_, fun hn => ?_, fun a ha h0 h1 h2 h3 => ?_⟩
+            · have hif : i ≠ f.idx := by
+                have : exemptIdx n1 = f.idx := by simp [exemptIdx, hfr1.fs, hfs0, hab0, hidx]
+                rw [← this]; exact he
+              rw [hget1, hkvF1, if_neg hif]
+              exact hc.1 i hi (by simp [exemptIdx, hfs0, hab0, ← hidx]; exact hif) hd
+            · rw [hfr1.fs, hfs0] at hn; simp at hn
+            · right
+              have : a = a0 := by rw [hfr1.fs, hfs0] at ha; simpa using ha.symm
+              subst this
+              rw [hget1, hkvF1, hab0, ← hidx]
+              simp [hidx, hg]
+          generalize hn1m : ({ n1 with managed := true } : Node) = n1m
+          have hc1m : CohD n1m D := by
+            rw [← hn1m]
+            exact cohD_nets_armed n1.nets true hc1 (by rw [hfr1.fs, hfs0]; simp)
+          have ⟨hfr2, hst2⟩ := storeNets_spec n1m
+          rcases hr2 : storeNets n1m with ⟨n2, b2⟩
+          rw [hr2] at hfr2 hst2
+          simp only at hfr2 hst2
+          have hfs1m : n1m.fs = some a0 := by rw [← hn1m]; exact hfr1.fs.trans hfs0
+          rcases hst2 with ⟨hb2, hkv2, _⟩ | ⟨hb2, hkv2, _⟩
+          · subst hb2
+            simp only [ok]
+            have hget2 : ∀ i, getFabric n2 i = getFabric n i := by
+              intro i; simp only [getFabric, hfr2.fabrics]; rw [← hn1m]; exact hget1 i
+            have hkvF2 : ∀ i, kvF n2.kv i = if i = f.idx then some f else kvF n.kv i := by
+              intro i
+              have : kvF n2.kv i = kvF n1.kv i := by rw [hkv2, ← hn1m]; rfl
+              rw [this, hkvF1]
+            have hjoint : ∀ i, (i ≠ 0 ∧ i ∉ D) ∨ i = f.idx → getFabric n2 i = kvF n2.kv i := by
+              intro i hd
+              rw [hget2, hkvF2]
+              by_cases hif : i = f.idx
+              · rw [if_pos hif, hif, hidx]; exact hg
+              · rw [if_neg hif]
+                have hd' := hd.elim id (fun h => absurd h hif)
+                exact hc.1 i hd'.1 (by simp [exemptIdx, hfs0, hab0, ← hidx]; exact hif) hd'.2
+            refine ⟨⟨fun i hi _ hd => ?_, fun _ => ?_, fun a ha => by simp at ha⟩, fun _ => ⟨triv, ?_, ?_⟩⟩
+            · exact hjoint i (Or.inl ⟨hi, hd⟩)
+            · show (n2.nets, n2.managed) = kvNets n2.kv
+              rw [hkv2, hfr2.nets, hfr2.managed]
+              simp [kvNets]
+            · exact hjoint mode.fab (Or.inr hidx.symm)
+            · show (getFabric n2 mode.fab).isSome = true
+              rw [hget2, hg]; rfl
+          · subst hb2
+            simp only []
+            have hc2 : CohD n2 D := cohD_frame hfr2 (by rw [hkv2]) (by rw [hkv2]) hc1m
+            refine ⟨?_, by simp⟩
+            exact cohD_nets_armed n2.nets n1.managed hc2 (by rw [hfr2.fs, hfs1m]; simp)
+        · subst hb1
+          simp only []
+          exact ⟨cohD_frame hfr1 (by rw [hkv1]) (by rw [hkv1]) hc, by simp⟩
+
+theorem checkState_none {a : Armed} {mode : Mode} {present absent : Flags → Bool} {noc : Bool}
+    (h : checkState a mode present absent noc = none) :
+    a.fab = mode.fab ∧ present a.flags = true ∧ absent a.flags = false := by
+  unfold checkState at h
+  by_cases h1 : a.fab = mode.fab
+  · by_cases h2 : present a.flags = true
+    · by_cases h3 : absent a.flags = true
+      · simp [h1, h2, h3] at h
+      · exact ⟨h1, h2, by simpa using h3⟩
+    · simp only [h1, ne_eq, not_true_eq_false, if_false, h2, Bool.false_eq_true, Bool.not_false, if_true] at h
+      split at h <;> cases h
+  · simp [h1] at h
+
+/-- `AddNOC` re-binds the fail-safe context to the fabric it adds: the fabric the context was bound
+to before is not exempt any more, so it must agree with the store (`DefOK`) -/
+theorem cohD_rebind {n n' : Node} {D : List Nat} (a b : Armed) (idx : Nat) (hc : CohD n D)
+    (hfs : n.fs = some a) (hfs' : n'.fs = some b) (hb : b.fab = idx) (hbf : b.flags.addNoc = true)
+    (hmem : ∀ i, i ≠ idx → getFabric n' i = getFabric n i) (hkv : n'.kv = n.kv)
+    (hold : a.fab ≠ 0 → a.fab ∈ D ∨ getFabric n a.fab = kvF n.kv a.fab) : CohD n' D := by
+  refine ⟨fun i hi he hd => ?_, fun hn => by rw [hfs'] at hn; simp at hn, fun c hc' _ _ _ h3 => ?_⟩
+  · have hii : i ≠ idx := by simpa [exemptIdx, hfs', hb] using he
+    rw [hmem i hii, hkv]
+    by_cases hia : i = a.fab
+    · rcases hold (by rw [← hia]; exact hi) with hm | heq
+      · exact absurd (by rw [hia]; exact hm) hd
+      · rw [hia]; exact heq
+    · exact hc.1 i hi (by simp [exemptIdx, hfs]; exact hia) hd
+  · have : c = b := by rw [hfs'] at hc'; simpa using hc'.symm
+    subst this
+    rw [hbf] at h3; cases h3
+
+theorem sessOp_addnoc_cohD (cfg : Cfg) (n : Node) (D : List Nat) (sid s ca fid node subj ser : Nat) (mode : Mode)
+    (hc : CohD n D) :
+    CohD (sessOp cfg n sid mode (.addnoc s ca fid node subj ser)).1 D := by
+  unfold sessOp
+  cases hca : checkArmed n mode with
+  | some e => exact hc
+  | none =>
+    have ⟨a0, hfs0, hab0⟩ := checkArmed_none hca
+    simp only [hfs0]
+    cases hcs : checkState a0 mode (fun f => f.root && f.addCsr) (fun f => f.addNoc || f.updCsr || f.updNoc) true with
+    | some e => exact hc
+    | none =>
+      have ⟨_, _, habs⟩ := checkState_none hcs
+      simp only [Bool.or_eq_false_iff] at habs
+      simp only []
+      split
+      · exact hc
+      · rename_i hbusy
+        have hold : a0.fab ≠ 0 → a0.fab ∈ D ∨ getFabric n a0.fab = kvF n.kv a0.fab := by
+          intro h0
+          have hdef : a0.deferred = false := by
+            cases hd : a0.deferred with
+            | false => rfl
+            | true => exact absurd (by simp [h0, hd]) hbusy
+          exact hc.2.2 a0 hfs0 h0 hdef habs.2 habs.1.1
+        split
+        · exact hc
+        · split
+          · exact hc
+          · split
+            · exact hc
+            · split
+              · exact hc
+              · rename_i idx _
+                split
+                · exact hc
+                · -- the new fabric `f` at index `idx`
+                  generalize hf : ({ idx := idx, gen := n.nextGen, ca := n.staged, fid := fid, node := node, ser := ser,
+                                     acl := [subj], grp := [], label := 0 } : Fabric) = f
+                  have hfi : f.idx = idx := by rw [← hf]
+                  have happ : ∀ i, i ≠ idx → (n.fabrics ++ [f]).find? (fun g => decide (g.idx = i)) = getFabric n i := by
+                    intro i hi
+                    rw [find_append_single]
+                    have : ¬ f.idx = i := by rw [hfi]; exact fun h => hi h.symm
+                    simp only [getFabric, this, if_false]
+                    cases n.fabrics.find? (fun g => decide (g.idx = i)) <;> rfl
+                  split
+                  · -- promoted PASE session
+                    refine cohD_rebind a0 { a0 with fab := idx, flags := { a0.flags with addNoc := true } } idx hc hfs0
+                      triv triv triv (fun i hi => ?_) triv hold
+                    exact happ i hi
+                  · -- scopeguard: the fabric is removed again
+                    refine cohD_rebind a0 { a0 with fab := idx, flags := { a0.flags with addNoc := true } } idx hc hfs0
+                      triv triv triv (fun i hi => ?_) triv hold
+                    show List.find? (fun g => decide (g.idx = i)) (List.filter (fun g => decide (g.idx ≠ idx)) (n.fabrics ++ [f])) = getFabric n i
+                    rw [find_filter_ne, if_neg hi]
+                    exact happ i hi
+                  · refine cohD_rebind a0 { a0 with fab := idx, flags := { a0.flags with addNoc := true } } idx hc hfs0
+                      triv triv triv (fun i hi => ?_) triv hold
+                    exact happ i hi
+
+/-! ### sessions after the prologue keep their id and mode -/
+
+def SessSub (l' l : List Sess) : Prop := ∀ s' ∈ l', ∃ s0 ∈ l, s0.id = s'.id ∧ s0.mode = s'.mode
+
+theorem sessSub_refl (l : List Sess) : SessSub l l := fun s hs => ⟨s, hs, rfl, rfl⟩
+
+theorem sessSub_trans {a b c : List Sess} (h1 : SessSub a b) (h2 : SessSub b c) : SessSub a c := by
+  intro s hs
+  obtain ⟨s1, hs1, e1, m1⟩ := h1 s hs
+  obtain ⟨s2, hs2, e2, m2⟩ := h2 s1 hs1
+  exact ⟨s2, hs2, by rw [e2, e1], by rw [m2, m1]⟩
+
+theorem removePase_sub (l : List Sess) (exp : Option Nat) : SessSub (removePase l exp) l := by
+  intro s hs
+  unfold removePase at hs
+  rw [List.mem_map] at hs
+  obtain ⟨s0, hs0, rfl⟩ := hs
+  have hm := (List.mem_filter.mp hs0).1
+  refine ⟨s0, hm, ?_, ?_⟩ <;> split <;> rfl
+
+theorem removeForFabric_sub (l : List Sess) (fab : Nat) (exp : Option Nat) : SessSub (removeForFabric l fab exp) l := by
+  intro s hs
+  unfold removeForFabric at hs
+  rw [List.mem_map] at hs
+  obtain ⟨s0, hs0, rfl⟩ := hs
+  have hm := (List.mem_filter.mp hs0).1
+  refine ⟨s0, hm, ?_, ?_⟩ <;> split <;> rfl
+
+theorem rollbackSessions_sub (n : Node) (r exp : Option Nat) : SessSub (rollbackSessions n r exp) n.sessions := by
+  unfold rollbackSessions
+  cases r with
+  | none => exact removePase_sub _ _
+  | some idx => exact sessSub_trans (removePase_sub _ _) (removeForFabric_sub _ _ _)
+
+theorem expireArmed_sub (cfg : Cfg) (n : Node) (a : Armed) (exp : Option Nat) :
+    SessSub (expireArmed cfg n a exp).1.sessions n.sessions := by
+  unfold expireArmed
+  cases rollbackFabrics cfg n a with
+  | error e => exact sessSub_refl _
+  | ok fs => exact rollbackSessions_sub n _ exp
+
+theorem purgeResum_sessions (n : Node) (i : Nat) : (purgeResum n i).1.sessions = n.sessions :=
+  (purgeResum_spec n i).2.1
+
+theorem expireAndPurge_sub (cfg : Cfg) (n : Node) (a : Armed) (exp : Option Nat) :
+    SessSub (expireAndPurge cfg n a exp).1.sessions n.sessions := by
+  unfold expireAndPurge
+  have h := expireArmed_sub cfg n a exp
+  rcases hres : expireArmed cfg n a exp with ⟨n1, e, r⟩
+  rw [hres] at h
+  simp only at h
+  cases e with
+  | some e => exact h
+  | none =>
+    cases r with
+    | none => exact h
+    | some idx =>
+      have hp := purgeResum_sessions n1 idx
+      rcases hpr : purgeResum n1 idx with ⟨n2, b⟩
+      rw [hpr] at hp
+      simp only at hp
+      cases b <;> (simp only [hpr]; rw [hp]; exact h)
+
+theorem windowTimeout_sessions (m : Node) : (windowTimeout m).sessions = m.sessions := by
+  unfold windowTimeout; split <;> (try split) <;> rfl
+
+theorem checkTimeouts_sub (cfg : Cfg) (n : Node) (sid : Option Nat) :
+    SessSub (checkTimeouts cfg n sid).1.sessions n.sessions := by
+  unfold checkTimeouts
+  cases hfs : n.fs with
+  | none => simp only []; rw [windowTimeout_sessions]; exact sessSub_refl _
+  | some a =>
+    simp only []
+    by_cases ht : n.now ≥ a.armedAt + a.timeout
+    · simp only [ht, if_true]
+      have h := expireAndPurge_sub cfg n a (expSid n sid)
+      have heq : (expireAndPurgeLenient cfg n a (expSid n sid)).1 = (expireAndPurge cfg n a (expSid n sid)).1 := rfl
+      cases he : (expireAndPurgeLenient cfg n a (expSid n sid)).2 with
+      | some e => simp only []; rw [heq]; exact h
+      | none => simp only []; rw [windowTimeout_sessions, heq]; exact h
+    · simp only [ht, if_false]; rw [windowTimeout_sessions]; exact sessSub_refl _
+
+
+/-! ### restart, and the whole step -/
+
+/-- a restart rebuilds exactly the stored view -/
+theorem restartFrom_agree (n : Node) (kv : KV) (hist : List KV) :
+    Agree (restartFrom n kv hist) ∧ (restartFrom n kv hist).fs = none ∧ (restartFrom n kv hist).failIn = 0 ∧
+    (restartFrom n kv hist).kv.fabs = kv.fabs ∧ (restartFrom n kv hist).kv.nets = kv.nets ∧
+    (restartFrom n kv hist).sessions = [] := by
+  unfold restartFrom
+  cases hr : kv.resum <;> simp only [] <;> split <;>
+    (refine ⟨⟨fun i _ => ?_, ?_⟩, ?_, ?_, ?_, ?_, ?_⟩
+     · simp [getFabric, kvF]
+     · simp [kvNets]; cases kv.nets <;> simp
+     all_goals simp)
+
+theorem addSess_cohD (cfg : Cfg) (n : Node) (D : List Nat) (mode : Mode) (peer gen : Nat) (hc : CohD n D) :
+    CohD (addSess cfg n mode peer gen).1 D := by
+  unfold addSess
+  simp only []
+  split
+  · exact cohD_congr triv triv triv triv triv triv hc
+  · exact cohD_congr triv triv triv triv triv triv hc
+
+theorem getSess_mem {n : Node} {sid : Nat} {s : Sess} (h : getSess n sid = some s) : s ∈ n.sessions ∧ s.id = sid := by
+  unfold getSess at h
+  exact ⟨List.mem_of_find?_eq_some h, by simpa using List.find?_some h⟩
+
+theorem sessOp_cohD (cfg : Cfg) (n : Node) (D : List Nat) (sid : Nat) (mode : Mode) (op : Op) (hc : CohD n D) :
+    CohD (sessOp cfg n sid mode op).1 (dirtyOp D mode op (sessOp cfg n sid mode op).2) := by
+  cases op with
+  | openW s => exact sessOp_openW_cohD cfg n D sid s mode hc
+  | arm s secs => exact sessOp_arm_cohD cfg n D sid s secs mode hc
+  | csr s upd => exact sessOp_csr_cohD cfg n D sid s upd mode hc
+  | root s ca => exact sessOp_root_cohD cfg n D sid s ca mode hc
+  | addnoc s ca fid node subj ser => exact sessOp_addnoc_cohD cfg n D sid s ca fid node subj ser mode hc
+  | updnoc s node ser => exact sessOp_updnoc_cohD cfg n D sid s node ser mode hc
+  | acl s v => exact sessOp_acl_cohD cfg n D sid s v mode hc
+  | grp s v => exact sessOp_grp_cohD cfg n D sid s v mode hc
+  | label s v => exact sessOp_label_cohD cfg n D sid s v mode hc
+  | net s v => exact sessOp_net_cohD cfg n D sid s v mode hc
+  | rmnet s v => exact sessOp_rmnet_cohD cfg n D sid s v mode hc
+  | complete s => exact (sessOp_complete_cohD cfg n D sid s mode hc).1
+  | rmfab s idx => exact sessOp_rmfab_cohD cfg n D sid s idx mode hc
+  | revoke s => exact sessOp_revoke_cohD cfg n D sid s mode hc
+  | bcw s v => exact sessOp_bcw_cohD cfg n D sid s v mode hc
+  | _ => exact hc
+
+/-- the dirty set after one operation: a restart re-synchronises everything; a fabric-scoped write
+that was answered with a store error makes the fabric of its session dirty -/
+def dirtyStep (cfg : Cfg) (n : Node) (op : Op) (D : List Nat) : List Nat :=
+  match op with
+  | .restart | .crash _ | .corrupt | .coldreset | .fabrecover _ => []
+  | _ =>
+    match isSessOp op with
+    | some sid =>
+      match getSess (checkTimeouts cfg n (some sid)).1 sid with
+      | some s => dirtyOp D s.mode op (step cfg n op).2
+      | none => D
+    | none => D
+
+theorem dirtyOp_sup (D : List Nat) (mode : Mode) (op : Op) (st : Status) : ∀ i, i ∈ D → i ∈ dirtyOp D mode op st := by
+  intro i hi
+  unfold dirtyOp
+  split <;> (try split) <;> first | exact List.mem_cons_of_mem _ hi | exact hi
+
+/-- a session-borne command either stops in the prologue (no session, reserved session, prologue
+error, session gone or expired) or is `sessOp` on the state after the prologue -/
+theorem step_sess (cfg : Cfg) (n : Node) (op : Op) (sid : Nat) (hso : isSessOp op = some sid) :
+    (step cfg n op).1 = n ∨ (step cfg n op).1 = (checkTimeouts cfg n (some sid)).1 ∨
+    ∃ s1, getSess (checkTimeouts cfg n (some sid)).1 sid = some s1 ∧
+      step cfg n op = sessOp cfg (checkTimeouts cfg n (some sid)).1 sid s1.mode op := by
+  unfold step
+  simp only [hso]
+  cases hg : getSess n sid with
+  | none => exact Or.inl triv
+  | some s0 =>
+    simp only []
+    split
+    · exact Or.inl triv
+    rcases hct : checkTimeouts cfg n (some sid) with ⟨n1, e⟩
+    cases e with
+    | some e => exact Or.inr (Or.inl triv)
+    | none =>
+      simp only []
+      cases hg1 : getSess n1 sid with
+      | none => exact Or.inr (Or.inl triv)
+      | some s1 =>
+        simp only []
+        split
+        · exact Or.inr (Or.inl triv)
+        · exact Or.inr (Or.inr ⟨s1, triv, triv⟩)
+
+/-- **Coherence (with the dirty set) is an invariant** of every operation, store faults included;
+only the factory reset is excluded (treated in C11) -/
+theorem step_cohD (cfg : Cfg) (n : Node) (D : List Nat) (op : Op) (hc : CohD n D) (hop : op ≠ .freset) :
+    CohD (step cfg n op).1 (dirtyStep cfg n op D) := by
+  cases hso : isSessOp op with
+  | some sid =>
+    have hds : dirtyStep cfg n op D =
+        match getSess (checkTimeouts cfg n (some sid)).1 sid with
+        | some s => dirtyOp D s.mode op (step cfg n op).2
+        | none => D := by
+      unfold dirtyStep
+      cases op <;> simp_all [isSessOp]
+    rw [hds]
+    have hsup : ∀ (m : Node), CohD m D → CohD m (match getSess (checkTimeouts cfg n (some sid)).1 sid with
+        | some s => dirtyOp D s.mode op (step cfg n op).2
+        | none => D) := by
+      intro m hm
+      refine cohD_mono (fun i hi => ?_) hm
+      split
+      · exact dirtyOp_sup _ _ _ _ i hi
+      · exact hi
+    have hc1 := checkTimeouts_cohD cfg n D (some sid) hc
+    rcases step_sess cfg n op sid hso with h | h | ⟨s1, hg1, h⟩
+    · rw [h]; exact hsup _ hc
+    · rw [h]; exact hsup _ hc1
+    · simp only [hg1]
+      rw [h]
+      exact sessOp_cohD cfg _ D sid s1.mode op hc1
+  | none =>
+    cases op with
+    | boot =>
+      simp only [step, isSessOp, dirtyStep]
+      split <;> first | exact hc | exact cohD_congr triv triv triv triv triv triv hc
+    | pase =>
+      simp only [step, isSessOp, dirtyStep]
+      split
+      · exact hc
+      · have := addSess_cohD cfg n D (.pase 0) 0 0 hc
+        rcases hr : addSess cfg n (.pase 0) 0 0 with ⟨n1, o⟩
+        rw [hr] at this
+        cases o <;> exact this
+    | caseEst fab node rid =>
+      simp only [step, isSessOp, dirtyStep]
+      split
+      · exact hc
+      · rename_i f _
+        have := addSess_cohD cfg n D (.case fab) node f.gen hc
+        rcases hr : addSess cfg n (.case fab) node f.gen with ⟨n1, o⟩
+        rw [hr] at this
+        cases o with
+        | none => exact this
+        | some id => exact cohD_congr triv triv triv triv triv triv this
+    | resume rid newRid =>
+      simp only [step, isSessOp, dirtyStep]
+      split
+      · exact hc
+      · rename_i r _
+        split
+        · exact hc
+        · have := addSess_cohD cfg n D (.case r.fab) r.peer r.gen hc
+          rcases hr : addSess cfg n (.case r.fab) r.peer r.gen with ⟨n1, o⟩
+          rw [hr] at this
+          cases o with
+          | none => exact this
+          | some id => exact cohD_congr triv triv triv triv triv triv this
+    | tick secs =>
+      simp only [step, isSessOp, dirtyStep, ok]
+      exact cohD_congr triv triv triv triv triv triv hc
+    | poll =>
+      simp only [step, isSessOp, dirtyStep]
+      have := checkTimeouts_cohD cfg n D none hc
+      rcases hr : checkTimeouts cfg n none with ⟨n1, e⟩
+      rw [hr] at this
+      cases e <;> exact this
+    | flush =>
+      have ⟨hfr, hkv, _⟩ := kvTick_frame n
+      rcases ht : kvTick n with ⟨n1, bad⟩
+      rw [ht] at hfr hkv
+      simp only at hfr hkv
+      simp only [step, isSessOp, dirtyStep, ht]
+      cases bad with
+      | true =>
+        simp only [if_true]
+        exact cohD_frame hfr (by rw [hkv]) (by rw [hkv]) hc
+      | false =>
+        simp only [Bool.false_eq_true, if_false, ok, kvCommit]
+        exact cohD_congr hfr.fabrics hfr.fs hfr.nets hfr.managed (by simp [hkv]) (by simp [hkv]) hc
+    | restart =>
+      simp only [step, isSessOp, dirtyStep, ok]
+      exact cohD_of_agree [] (restartFrom_agree n n.kv n.hist).1
+    | crash k =>
+      simp only [step, isSessOp, dirtyStep, ok]
+      exact cohD_of_agree [] (restartFrom_agree n _ _).1
+    | corrupt =>
+      simp only [step, isSessOp, dirtyStep, ok]
+      exact cohD_of_agree [] (restartFrom_agree n _ _).1
+    | kvfail k =>
+      simp only [step, isSessOp, dirtyStep, ok]
+      exact cohD_congr triv triv triv triv triv triv hc
+    | hs fab node rid =>
+      simp only [step, isSessOp, dirtyStep]
+      split
+      · exact hc
+      · rename_i f _
+        have := addSess_cohD cfg n D (.case fab) node f.gen hc
+        rcases hr : addSess cfg n (.case fab) node f.gen with ⟨n1, o⟩
+        rw [hr] at this
+        cases o with
+        | none => exact this
+        | some id => exact cohD_congr triv triv triv triv triv triv this
+    | hsdone sid =>
+      simp only [step, isSessOp, dirtyStep]
+      split
+      · exact cohD_congr triv triv triv triv triv triv hc
+      · exact hc
+    | coldreset =>
+      simp only [step, isSessOp, dirtyStep, ok]
+      exact cohD_of_agree [] ⟨fun i _ => by simp [getFabric, kvF], by simp [kvNets]⟩
+    | fabrecover i =>
+      simp only [step, isSessOp, dirtyStep, ok]
+      exact cohD_of_agree [] ⟨fun i _ => by simp [getFabric, kvF], by simp [kvNets]⟩
+    | freset => exact absurd rfl hop
+    | _ => simp [isSessOp] at hso
+
+/-- a history, one operation after the other -/
+def run (cfg : Cfg) (n : Node) : List Op → Node
+  | [] => n
+  | op :: rest => run cfg (step cfg n op).1 rest
+
+/-- the dirty set of a history -/
+def dirtyRun (cfg : Cfg) (n : Node) (D : List Nat) : List Op → List Nat
+  | [] => D
+  | op :: rest => dirtyRun cfg (step cfg n op).1 (dirtyStep cfg n op D) rest
+
+theorem run_cohD (cfg : Cfg) (ops : List Op) : ∀ (n : Node) (D : List Nat), CohD n D → Op.freset ∉ ops →
+    CohD (run cfg n ops) (dirtyRun cfg n D ops) := by
+  induction ops with
+  | nil => intro n D hc _; exact hc
+  | cons op rest ih =>
+    intro n D hc hno
+    have hop : op ≠ .freset := fun he => hno (by rw [he]; exact List.mem_cons_self)
+    exact ih _ _ (step_cohD cfg n D op hc hop) (fun hm => hno (List.mem_cons_of_mem _ hm))
+
+theorem coh_init : Coh ({} : Node) := by
+  refine ⟨fun i _ _ _ => ?_, fun _ => ?_, fun a ha => ?_⟩
+  · simp [getFabric, kvF]
+  · simp [kvNets]
+  · simp at ha
+
+theorem run_append (cfg : Cfg) (n : Node) (a b : List Op) : run cfg n (a ++ b) = run cfg (run cfg n a) b := by
+  induction a generalizing n with
+  | nil => rfl
+  | cons op rest ih => exact ih _
+
 end Admin
